@@ -381,6 +381,18 @@ pub fn run(ctx: &mut Ctx) {
     let ps: [f64; 6] = [1.0, 0.9, 0.5, 0.1, 0.01, 1e-4];
     let n_cases = ctx.tier_pick(500u64, 6000);
     let max_ops = ctx.tier_pick(20_000u64, 500_000);
+    // larger nominal sizes, one per shard: enough operations for a few rebuilds (table indices beyond 16 bits)
+    {
+        let lg_k = if ctx.quick() { 13 + (ctx.shard % 3) as u64 } else { 13 + (ctx.shard % 8) as u64 };
+        let case = Json::obj()
+            .set("lane", if ctx.shard % 2 == 0 { "public" } else { "adversarial" })
+            .set("lg_k", lg_k)
+            .set("rf", (ctx.shard / 4) as u64 % 4)
+            .set("p", if ctx.shard % 3 == 2 { 0.5 } else { 1.0 })
+            .set("n_ops", (1u64 << lg_k) * ctx.tier_pick(5, 4))
+            .set("seed", ctx.case_seed("theta-big", lg_k));
+        run_case(ctx, &case);
+    }
     let mut rng = ctx.rng("cases");
     for i in 0..n_cases {
         let lg_k = if !ctx.quick() && rng.chance(0.03) { rng.range(13, 16) } else { rng.range(5, 12) };
